@@ -78,6 +78,7 @@ def obligations(which, ep, ec, fixed, tin, out, eps, iters, OR):
                 yield f"sample[{u}]:ge_in", out[u] >= tin[u]
                 alts = [out[u] == tin[u]]
                 for c in ch[u]:
+                    yield f"sample[{u}]:ge_child{c}+eps", out[u] >= out[c] + eps
                     alts.append(out[u] == out[c] + eps)
                 yield f"sample[{u}]:minimal_push", OR(*alts)
 
